@@ -814,7 +814,7 @@ fn replay(ctx: &Ctx, _engine: &str, case: &Value) -> CaseResult {
 pub static C16: PropDef = PropDef {
     id: "C16",
     level: "exploration",
-    rule: "proptest generates histories of up to 16 builder calls (arg, args, env, env_extend, env_remove, env_clear, cwd, stdin/stdout/stderr with Redirection values, files, NullFile, data, Merge, detached, clone continuing with either copy and running both) over arbitrary non-NUL bytes with environment names from a small alphabet that includes names set in the harness's own controlled environment, optionally starting from Exec::shell(s) with PATH pointing at a scratch `sh`, ending in one of the 7 terminators. A 60-line model of a plain command description predicts either a refusal (panic) at a specific call / terminator or the child's self-report (argv, raw environment, cwd, bytes read from stdin, kind of each standard stream). Non-trivial = the history contains remove-then-set, clear-then-set/extend, a duplicate name, an edit after clone, a refused setting, a refused terminator, a clone or shell; distinct = distinct histories among those.",
+    rule: "proptest generates histories of up to 16 builder calls (arg, args, env, env_extend, env_remove, env_clear, cwd, stdin/stdout/stderr with Redirection values, files, NullFile, data, Merge, detached, clone continuing with either copy and running both) over arbitrary non-NUL bytes with environment names from a small alphabet that includes names set in the harness's own controlled environment, optionally starting from Exec::shell(s) with PATH pointing at a scratch `sh`, ending in one of the 7 terminators. A 60-line model of a plain command description predicts either a refusal (panic) at a specific call / terminator or the child's self-report (argv, raw environment, cwd, bytes read from stdin, kind of each standard stream). Non-trivial = the history contains remove-then-set, clear-then-set/extend, a duplicate name, an edit after clone, a refused setting, a refused terminator, a clone or shell; distinct = distinct histories among those. Terminator PopenDrop drops the Popen while the child is held alive by a release file: the drop waits iff the command (also a clone of it) is not detached. Between the builder calls and the terminator the harness sets, in its own environment, every name a builder call removed and none set again. env_extend with 150-420 distinct names exercises large environments.",
     assumptions: &["the helper child reports its own argv/environ/cwd/fds through a side file; kinds of streams are judged by fstat identity", "stdin=Pipe without data is only combined with popen/stream_stdin; Merge on stdout is left to C05"],
     engines: "real",
     workers: |_| 16,
